@@ -9,12 +9,15 @@ from vf import core
 
 def attr_len(nhk, ncomm, xlen):
     """Sum of Len() of the attributes other than MP_REACH: ORIGIN 4, AS_PATH(1 AS) 9, MED 7, NEXT_HOP 7 (v4 nh)."""
-    n = 4 + 9 + 7 + (7 if nhk == 0 else 0)
+    n = 4 + 9 + 7 + (7 if nhk in (0, 3) else 0)      # nhk 3: IPv4 next hop learned in MP_REACH_NLRI, NEXT_HOP synthesised when packing
     if ncomm > 0:
         n += (4 if 4 * ncomm > 255 else 3) + 4 * ncomm
     if xlen > 0:
         n += (4 if xlen > 255 else 3) + xlen
     return n
+
+
+UNIQ = 4 * 10 ** 9     # identities from here on: one route of its own, the low part is the shared identity
 
 
 def nlen(plen):
@@ -26,8 +29,10 @@ class Gen:
         self.rng = rng
         self.attr_ids = {}
 
-    def attrs_id(self, asn, ncomm, med, xlen):
-        k = (asn, ncomm, med, xlen)
+    def attrs_id(self, asn, ncomm, med, xlen, nhi=0):
+        """identity of the attribute bytes INCLUDING the next-hop address (NEXT_HOP is an attribute; the MP packer compares
+        the next hops beside the attribute bytes)"""
+        k = (asn, ncomm, med, xlen, nhi)
         if k not in self.attr_ids:
             self.attr_ids[k] = len(self.attr_ids) + 1
         return self.attr_ids[k]
@@ -43,7 +48,7 @@ class Gen:
             return asn, rng.choice([62, 63, 64, 65]), med, rng.choice([0, 250, 252, 253, 254, 255, 256])
         # near the size limit: total attribute bytes so that 23 + alen + one NLRI straddles the limit
         base = attr_len(nhk, 0, 0)
-        overhead = 23 if (fam == 1 and nhk == 0) else 23 + 3 + 5 + (16 if nhk == 1 else 32 if nhk == 2 else 4)
+        overhead = 23 if (fam == 1 and nhk in (0, 3)) else 23 + 3 + 5 + (16 if nhk == 1 else 32 if nhk == 2 else 4)
         target = limit - overhead - rng.choice([-9, -5, -4, -1, 0, 1, 2, 3, 4, 5, 6, 8, 9, 10, 13, 14, 20, 40])
         rest = target - base
         if rest < 8:
@@ -68,24 +73,28 @@ class Gen:
         npaths = rng.choice([1, 2, 3, 5, 8, 12, 20, 40]) if not big else rng.choice([700, 900, 1700, 2500])
         pool = rng.choice([3, 6, 20]) if not big else 4000
         fams = rng.choice([[1], [1], [2], [1, 2]])
+        nhis = rng.choice([[0], [0, 1], [0, 1, 2]])       # next-hop addresses in play
         for i in range(npaths):
             fam = rng.choice(fams)
             plen = rng.choice([8, 16, 24, 24, 32, 0]) if fam == 1 else rng.choice([32, 48, 64, 0])
             idx = rng.randrange(1, pool + 1) if plen else 0
             if plen and plen < 16:
                 idx = idx % 200 + 1
-            # without ADD-PATH the receiver keys routes by prefix only: one local id per prefix (the cross-id case belongs to C01)
-            pid = rng.choice([0, 1, 2]) if ap else (idx % 3)
+            # the local identifier of the path; without ADD-PATH the peer knows a route by its prefix alone, so paths of one
+            # prefix with different local identifiers are versions of ONE route on that session (the model's path identity is
+            # the identifier on the wire: 0 there)
+            pid = rng.choice([0, 1, 2])
             r = rng.random()
             kind = "a" if r < 0.7 else ("w" if r < 0.93 else "e")
             if big:
                 kind = "a" if r < 0.85 else "w"
             slot = rng.randrange(nattr)
-            nhk = (rng.choice([0, 0, 0, 1]) if fam == 1 else rng.choice([1, 1, 2]))
+            nhk = (rng.choice([0, 0, 0, 1, 3]) if fam == 1 else rng.choice([1, 1, 2]))
+            nhi = rng.choice(nhis)
             if (slot, fam, nhk) not in attrsets:
                 attrsets[(slot, fam, nhk)] = self.attr_choice(limit, 4 if ap else 0, fam, nhk) if not big else (65001, rng.choice([0, 3]), 0, 0)
             asn, ncomm, med, xlen = attrsets[(slot, fam, nhk)]
-            paths.append(dict(fam=fam, idx=idx, plen=plen, pid=pid, kind=kind, asn=asn, ncomm=ncomm, med=med, nhk=nhk, xlen=xlen))
+            paths.append(dict(fam=fam, idx=idx, plen=plen, pid=pid, kind=kind, asn=asn, ncomm=ncomm, med=med, nhk=nhk, xlen=xlen, nhi=nhi))
         return dict(ext=ext, ap=ap, limit=limit, paths=paths, big=big)
 
     def model_line(self, c):
@@ -94,17 +103,23 @@ class Gen:
             kind = {"a": 0, "w": 1, "e": 2}[p["kind"]]
             key = p["idx"] * 256 + p["plen"]
             if kind == 0:
-                ps.append("(%d %d %d 0 %d %d %d %d)" % (p["fam"], key, p["pid"], self.attrs_id(p["asn"], p["ncomm"], p["med"], p["xlen"]) * 4 + p["nhk"] * 0,
-                                                      attr_len(p["nhk"], p["ncomm"], p["xlen"]), p["nhk"], nlen(p["plen"])))
+                aid = self.attrs_id(p["asn"], p["ncomm"], p["med"], p["xlen"], p.get("nhi", 0)) * 4
+                nhk = p["nhk"]
+                if nhk == 3:
+                    # packerV4 compares the attribute bytes INCLUDING MP_REACH_NLRI, which holds the route's own prefix (without
+                    # path identifier): such routes share attribute bytes only with routes of the same prefix; for the model
+                    # they are IPv4-next-hop routes whose identity includes the prefix
+                    aid, nhk = UNIQ + 4 * (key * 100000 + aid // 4), 0
+                ps.append("(%d %d %d 0 %d %d %d %d)" % (p["fam"], key, p["pid"] if c["ap"] else 0, aid, attr_len(p["nhk"], p["ncomm"], p["xlen"]), nhk, nlen(p["plen"])))
             elif kind == 1:
-                ps.append("(%d %d %d 1 0 0 0 %d)" % (p["fam"], key, p["pid"], nlen(p["plen"])))
+                ps.append("(%d %d %d 1 0 0 0 %d)" % (p["fam"], key, p["pid"] if c["ap"] else 0, nlen(p["plen"])))
             else:
                 ps.append("(%d 0 0 2 0 0 0 0)" % p["fam"])
         return "pack %d %d (%s)" % (c["limit"], 4 if c["ap"] else 0, " ".join(ps))
 
 
 def impl_line(c):
-    ps = " ".join("(%d %d %d %d %s %d %d %d %d %d)" % (p["fam"], p["idx"], p["plen"], p["pid"], p["kind"], p["asn"], p["ncomm"], p["med"], p["nhk"], p["xlen"])
+    ps = " ".join("(%d %d %d %d %s %d %d %d %d %d %d)" % (p["fam"], p["idx"], p["plen"], p["pid"], p["kind"], p["asn"], p["ncomm"], p["med"], p["nhk"], p["xlen"], p.get("nhi", 0))
                   for p in c["paths"])
     return "pack %d %d (%s)" % (c["ext"], c["ap"], ps)
 
@@ -154,7 +169,7 @@ def impl_msgs(gen, c, out):
         nhk = {"v4": 0, "v6": 1, "v6ll": 2, "-": "-"}[attrs[4]]
         aid = "-"
         if attrs[1] != "-":
-            aid = gen.attrs_id(attrs[1], attrs[2], attrs[3], attrs[6]) * 4
+            aid = gen.attrs_id(attrs[1], attrs[2], attrs[3], attrs[6], attrs[7]) * 4
         if parts.get("w"):
             res.append((size, "W4", 1, "-", "-", items(parts["w"])))
         elif parts.get("n"):
@@ -176,6 +191,8 @@ def model_msgs(c, out):
     res = []
     for m in parse_sx(out[3:])[0]:
         size, T, fam, aid, nhk, its = m
+        if isinstance(aid, int) and aid >= UNIQ:
+            aid = ((aid - UNIQ) // 4 % 100000) * 4
         fam_items = 1 if T in ("W4", "U4") else fam
         it = tuple((fam_items, k, (pid if c["ap"] else 0)) for k, pid in its)
         res.append(("toolong" if size > c["limit"] else size, T, fam, aid, nhk, it))
@@ -213,8 +230,8 @@ def make_oracle(gen):
             al = attr_len(p["nhk"], p["ncomm"], p["xlen"])
             apb = 4 if c["ap"] else 0
             if p["kind"] == "a":
-                exp[k] = (gen.attrs_id(p["asn"], p["ncomm"], p["med"], p["xlen"]) * 4, p["nhk"])
-                if p["fam"] == 1 and p["nhk"] == 0:
+                exp[k] = (gen.attrs_id(p["asn"], p["ncomm"], p["med"], p["xlen"], p.get("nhi", 0)) * 4, 0 if p["nhk"] == 3 else p["nhk"])
+                if p["fam"] == 1 and p["nhk"] in (0, 3):
                     single[k] = 23 + al + nlen(p["plen"]) + apb
                 else:
                     v = 5 + (16 if p["nhk"] == 1 else 32 if p["nhk"] == 2 else 4) + nlen(p["plen"]) + apb
